@@ -373,7 +373,7 @@ def _xfilter(accumulator, test_range, condition, operating_range):
     if isinstance(condition, str):
         condition = condition.upper()  # Text is compared ignoring the case.
 
-    @functools.lru_cache()
+    @functools.lru_cache(typed=True)  # 1 and TRUE are different values.
     def check(value):
         if _get_type_id(value) != type_id:
             return False
